@@ -32,27 +32,32 @@ import (
 )
 
 type target struct {
-	Pkg   string            // package pattern relative to the repo
-	Files []string          // base names to instrument
-	Maps  []string          // struct field names holding maps to watch
-	Entry map[string]string // function name ("Handle" or "(*T).Handle") -> tag expression
+	Pkg       string            // package pattern relative to the repo
+	Files     []string          // base names to instrument
+	Maps      []string          // struct field names holding maps to watch
+	Objs      []string          // struct field names holding objects whose method calls are accesses (all treated as writes except Avail/Len)
+	LocksOnly []string          // base names in which only Lock/Unlock calls are rewritten (no yields)
+	Entry     map[string]string // function name ("Handle" or "(*T).Handle") -> tag expression
 }
 
 var targets = []target{
 	{Pkg: "./listener/agent", Files: []string{"connection.go", "agent.go", "connections.go"}},
+	{Pkg: "./pushers/file", Files: []string{"file.go"}},
 	{Pkg: "./services", Files: []string{"tftp.go"}, Maps: []string{"buffers"}, Entry: map[string]string{"(*tftpService).Handle": "conn.RemoteAddr().String()"}},
-	{Pkg: "./listener/canary", Files: []string{"socket.go"}},
+	{Pkg: "./listener/canary", Files: []string{"socket.go", "state.go", "canary_linux.go"}, LocksOnly: []string{"state.go", "canary_linux.go"}, Objs: []string{"rbuffer"}},
 }
 
 const schedPath = "github.com/honeytrap/honeytrap/verifsched"
 
 type rewriter struct {
-	fset  *token.FileSet
-	info  *types.Info
-	file  string
-	maps  map[string]bool
-	n     int
-	funcs map[string]string
+	fset      *token.FileSet
+	info      *types.Info
+	file      string
+	maps      map[string]bool
+	objs      map[string]bool
+	locksOnly bool
+	n         int
+	funcs     map[string]string
 }
 
 func (r *rewriter) site(pos token.Pos) string {
@@ -106,6 +111,8 @@ type found struct {
 	lockCall *ast.CallExpr
 	mapExprs []ast.Expr
 	mapWrite bool
+	objExprs []ast.Expr
+	objWrite bool
 }
 
 func (r *rewriter) isWatchedMap(e ast.Expr) bool {
@@ -137,6 +144,14 @@ func (r *rewriter) scan(n ast.Node, f *found) {
 				f.mapExprs = append(f.mapExprs, v.X)
 			}
 		case *ast.CallExpr:
+			if m, ok := v.Fun.(*ast.SelectorExpr); ok {
+				if fld, ok := m.X.(*ast.SelectorExpr); ok && r.objs[fld.Sel.Name] {
+					f.objExprs = append(f.objExprs, m.X)
+					if m.Sel.Name != "Avail" && m.Sel.Name != "Len" {
+						f.objWrite = true
+					}
+				}
+			}
 			if id, ok := v.Fun.(*ast.Ident); ok && id.Name == "delete" && len(v.Args) == 2 && r.isWatchedMap(v.Args[0]) {
 				f.mapExprs = append(f.mapExprs, v.Args[0])
 				f.mapWrite = true
@@ -210,6 +225,9 @@ func (r *rewriter) before(s ast.Stmt) (pre []ast.Stmt, repl ast.Stmt) {
 			r.scan(v.Cond, &f)
 		}
 	}
+	if r.locksOnly {
+		return nil, s
+	}
 	if f.chanOp {
 		r.n++
 		pre = append(pre, &ast.ExprStmt{X: call("Yield", lit(r.site(s.Pos())))})
@@ -228,6 +246,21 @@ func (r *rewriter) before(s ast.Stmt) (pre []ast.Stmt, repl ast.Stmt) {
 			w = "true"
 		}
 		pre = append(pre, &ast.ExprStmt{X: call("Access", &ast.UnaryExpr{Op: token.AND, X: m}, ast.NewIdent(w), lit(r.site(s.Pos())))})
+	}
+	for _, m := range f.objExprs {
+		var b bytes.Buffer
+		format.Node(&b, r.fset, m)
+		if seen[b.String()] {
+			continue
+		}
+		seen[b.String()] = true
+		r.n++
+		w := "false"
+		if f.objWrite {
+			w = "true"
+		}
+		// the field holds a pointer: its value identifies the shared object
+		pre = append(pre, &ast.ExprStmt{X: call("Access", m, ast.NewIdent(w), lit(r.site(s.Pos())))})
 	}
 	return
 }
@@ -319,6 +352,15 @@ func main() {
 			r := &rewriter{fset: p.Fset, info: p.TypesInfo, file: fn, maps: map[string]bool{}, funcs: t.Entry}
 			for _, m := range t.Maps {
 				r.maps[m] = true
+			}
+			for _, lo := range t.LocksOnly {
+				if lo == filepath.Base(fn) {
+					r.locksOnly = true
+				}
+			}
+			r.objs = map[string]bool{}
+			for _, m := range t.Objs {
+				r.objs[m] = true
 			}
 			for _, d := range af.Decls {
 				fd, ok := d.(*ast.FuncDecl)
